@@ -21,9 +21,24 @@ print('REPLAY: runs clean')
 """
 
 
+VCODE = r"""
+import json, sys
+from mc import env
+rec = json.load(open(sys.argv[1], encoding='utf-8'))
+ns = dict(env.NS)
+try:
+    exec(rec['value_code'], ns)
+    print('VALUE ' + repr(ns.get('OUT')))
+except BaseException as e:
+    print('VALUE EXC:' + type(e).__name__)
+"""
+
+
 def main():
     path = sys.argv[1]
     rec = json.load(open(path, encoding='utf-8'))
+    if rec.get('value_code'):
+        return replay_value(path, rec)
     print('property :', rec.get('property'))
     print('key      :', rec.get('key'))
     print('what     :', rec.get('what'))
@@ -36,6 +51,30 @@ def main():
     e.update({'PYTHONHASHSEED': str(rec.get('hashseed', 0)), 'PREGEX_VERIF_VSET': '0', 'PYTHONPATH': here,
               'PYTHONWARNINGS': 'ignore', 'PYTHONDONTWRITEBYTECODE': '1'})
     return subprocess.run([sys.executable, '-c', CODE, path], env=e, cwd=here).returncode
+
+
+def replay_value(path, rec):
+    """the violation says: this value differs between two interpreter configurations"""
+    print('property :', rec.get('property'))
+    print('key      :', rec.get('key'))
+    print('what     :', rec.get('what'))
+    print('--- value ---')
+    print(rec['value_code'])
+    here = os.path.dirname(os.path.dirname(os.path.abspath(__file__)))
+    vals = []
+    for seed in rec.get('hashseeds', [0, 1]):
+        e = dict(os.environ)
+        e.update({'PYTHONHASHSEED': str(seed), 'PREGEX_VERIF_VSET': '0', 'PYTHONPATH': here, 'PYTHONWARNINGS': 'ignore',
+                  'PYTHONDONTWRITEBYTECODE': '1'})
+        r = subprocess.run([sys.executable, '-c', VCODE, path], env=e, cwd=here, capture_output=True, text=True)
+        v = [l for l in r.stdout.splitlines() if l.startswith('VALUE ')]
+        vals.append(v[-1] if v else r.stderr[-200:])
+        print(f'PYTHONHASHSEED={seed}: {vals[-1][:300]}')
+    if len(set(vals)) > 1:
+        print('REPLAY: still fails (the value depends on the hash seed)')
+        return 1
+    print('REPLAY: runs clean')
+    return 0
 
 
 if __name__ == '__main__':
